@@ -93,7 +93,7 @@ static Probe probe(const Plan& plan, const std::string& prop, bool want_stderr =
         close(fds[0]);
         close(efds[0]);
         dup2(efds[1], 2);
-        alarm(60);
+        alarm(240);
         RunResult r = run_plan(plan, opts_for(prop));
         J o = J::obj();
         o.set("status", r.status);
@@ -488,7 +488,7 @@ static void child_loop(
         fprintf(out, "S %ld %016llx\n", i, (unsigned long long)seed);
         fflush(out);
         Plan plan = generate(prop, seed, tier);
-        alarm(40); // a run that hangs (a cyclic catalog...) is a crash
+        alarm(180); // a run that hangs (a cyclic catalog...) is a crash
         RunResult r = run_plan(plan, o);
         alarm(0);
         total.add(r.st);
@@ -517,6 +517,10 @@ static void child_loop(
         if (i < from + 3 || (i - from) % 997 == 0) {
             // a few plans written out as samples
             J s = J::obj();
+            bool full = plan.recs.size() <= 12 && plan.events.size() <= 8;
+            if (full) // a small plan written out in full
+                s = plan_to_json(plan);
+            if (!full) {
             s.set("seed", J((unsigned long long)seed));
             s.set("profile", plan.profile);
             s.set("policies", J::arr_of(plan.pols));
@@ -526,6 +530,7 @@ static void child_loop(
             for (auto& e : plan.events)
                 ev.push(op_name(e.op));
             s.set("events", ev);
+            }
             fprintf(out, "P %s\n", s.str().c_str());
         }
         if (fv) {
